@@ -306,6 +306,56 @@ pub fn near_miss_unit(ctx: &Ctx, rng: &mut Rng, o: &mut Out) {
       if named.is_empty() {
         continue;
       }
+      // token-dropped near misses: the pattern is the node's own text with one UNNAMED token left
+      // out (and, half of the time, the named sibling after it replaced by a hole); tried on the
+      // node itself at all five levels: whether the left-over token may be skipped is exactly
+      // what distinguishes the strictness levels (`[$A]` against `[,a]` must not match under cst)
+      let drops = if ctx.thorough { 40 } else { 16 };
+      for _ in 0..drops {
+        let pn = rng.pick(&named);
+        let inner: Vec<N> = pn.dfs().filter(|p| p.children().len() >= 2).take(40).collect();
+        if inner.is_empty() {
+          continue;
+        }
+        let par = rng.pick(&inner);
+        let kids: Vec<N> = par.children().collect();
+        let unnamed_idx: Vec<usize> = (0..kids.len()).filter(|i| !kids[*i].is_named() && kids[*i].range().len() > 0).collect();
+        if unnamed_idx.is_empty() {
+          continue;
+        }
+        let ui = *rng.pick(&unnamed_idx);
+        let u = kids[ui].range();
+        let (ps, pe) = (pn.range().start, pn.range().end);
+        let mut text = String::new();
+        text.push_str(&src.text[ps..u.start]);
+        text.push(' ');
+        // the named sibling right after the dropped token becomes a hole (50 %)
+        let next_named = kids.get(ui + 1).filter(|k| k.is_named() && k.range().len() > 0);
+        match next_named {
+          Some(k) if rng.chance(1, 2) && k.range().end <= pe => {
+            text.push_str(&src.text[u.end..k.range().start]);
+            text.push_str("$V0");
+            text.push_str(&src.text[k.range().end..pe]);
+          }
+          _ => text.push_str(&src.text[u.end..pe]),
+        }
+        let Ok(pat) = Pattern::try_new(&text, src.lang) else { continue };
+        let pd = treedump::dump_pattern(&pat.node);
+        o.op("pattern_wf", json!({"p": pd}), json!(pattern_wf(&pat.node)));
+        for (sn, mk2) in STRICT {
+          let p = pat.clone().with_strictness(mk2());
+          let r = run_match(&p, pn, &ids);
+          let matched = r["m"] == json!(true);
+          o.op("match", json!({"t": tid, "node": ids.of(pn), "p": pd, "s": sn}), r);
+          if matched {
+            o.op(
+              "oracle:aligns",
+              json!({"t": tid, "node": ids.of(pn), "p": pd, "s": sn, "fp": format!("unjustified match strictness={sn}"), "pattern": text, "lang": src.lang.to_string()}),
+              json!(true),
+            );
+          }
+        }
+      }
       for _ in 0..pats_per_src {
         let pn = rng.pick(&named);
         let holes = if rng.chance(1, 3) { vec![] } else { choose_holes(pn, rng, &ids, true) };
@@ -335,7 +385,16 @@ pub fn near_miss_unit(ctx: &Ctx, rng: &mut Rng, o: &mut Out) {
         let (sname, mk) = *rng.pick(&STRICT);
         let strict_all = rng.chance(1, 4);
         for c in cands {
-          let levels: Vec<(&str, fn() -> MatchStrictness)> = if strict_all { STRICT.to_vec() } else { vec![(sname, mk)] };
+          let mut levels: Vec<(&str, fn() -> MatchStrictness)> = if strict_all { STRICT.to_vec() } else { vec![(sname, mk)] };
+          // a pair that matches at the drawn level is tried at every other level too: matches are
+          // rare among near misses, and a leniency that is legitimate at one level (skipping an
+          // unnamed token) is exactly what must NOT be reported at a stricter one
+          if !strict_all {
+            let p0 = pat.clone().with_strictness(mk());
+            if run_match(&p0, c, &ids)["m"] == json!(true) {
+              levels = STRICT.to_vec();
+            }
+          }
           for (sn, mk2) in levels {
             let p = pat.clone().with_strictness(mk2());
             let r = run_match(&p, c, &ids);
